@@ -381,6 +381,13 @@ impl Task {
             )));
         }
         self.init(ctx)?;
+
+        // a branch can become pending after the siblings it waits for have been decided,
+        // nobody would wake it up then, so check it right now
+        if self.state().is_pending() && self.is_ready() {
+            self.set_state(TaskState::Running);
+            ctx.runtime.scher().emit_task_event(self)?;
+        }
         self.run(ctx)?;
         self.next(ctx)?;
         Ok(())
